@@ -106,6 +106,10 @@ theorem cmdline_spelling_here (accepts : Str → Str → Bool) (prog : Str) (xs 
     tokenise formal accepts (spell xs) [] = .ok { pairs := xs.map (fun x => (x.1, x.2.1)), positional := [] } :=
   Fabio.Props.C15Cmd.cmdline_spelling_partial formal accepts settableNames flag_names_cmdline_safe prog xs hx hwf hv
 
+/-- `main` hands the process's own argument vector and environment block to `config.Load` — the two inputs
+every theorem here quantifies over — and `Load` is not called in any other way -/
+theorem main_loads_args_and_environ : mainLoadsArgsAndEnviron = true := by decide
+
 /-! ### listeners (round 4) -/
 
 /-- the protocol names of the model are the case literals of the protocol switch in `parseListen`, and that
@@ -124,5 +128,15 @@ theorem listen_protos_handled :
 theorem accepted_listener_startable_here (E : ListenEnv) (cfg : Map) (l : LListen)
     (h : parseListenM E cfg = .ok l) : startable (listenProtosHandled.map String.toList) l = true :=
   Fabio.Props.C15Listen.accepted_listener_startable E _ listen_protos_handled.1 cfg l h
+
+/-- **an accepted configuration's listeners can be started, on the source as it is now** (instance of
+`C15Listen.accepted_config_listeners_startable` with the case literals of `main.go`) -/
+theorem accepted_config_listeners_startable_here (unq : Str → Option Str) (atoi : Str → Int) (X : ListenExt)
+    (rest : List Resolved → Option Err) (flags : List (Str × Str)) (s : Sources) (cfg : Cfg)
+    (h : loadModel unq atoi (listenExtra unq X rest) flags s = .ok (.ok cfg)) :
+    ∃ ls ui, listenersOf unq X cfg.values = .ok (ls, ui) ∧
+      (∀ l ∈ ls, startable (listenProtosHandled.map String.toList) l = true ∧ l.addr ≠ []) ∧
+      (∀ l, ui = some l → startable (listenProtosHandled.map String.toList) l = true ∧ l.addr ≠ []) :=
+  Fabio.Props.C15Listen.accepted_config_listeners_startable unq atoi X rest flags s _ listen_protos_handled.1 cfg h
 
 end Fabio.Props.C15Facts
